@@ -7,12 +7,16 @@ Local Open Scope N_scope.
 
 Section Rec.
   Variable hash : bytes -> bytes.
+  Variable K : Type.
+  Variable enc : bytes -> K.
+  Variable TR : Type.
   Variable R : Type.
   Variable root_eqb : R -> R -> bool.
-  Variable smt_update : R -> list (bytes * bytes) -> R.
+  Variable tree_update : TR -> list (K * option bytes) -> TR.
+  Variable tree_root : TR -> R.
   Variable empty_root : R.            (* emptyHash: root of the empty tree *)
-  Notation appdb := (appdb R).
-  Notation rres := (rres R).
+  Notation appdb := (appdb TR R).
+  Notation rres := (rres TR R).
 
   Inductive ires := IOk (a : appdb) | IBehind | IRevertErr (a : appdb) (r : rres) | IConflict (a : appdb) | IFuel.
 
@@ -22,7 +26,7 @@ Section Rec.
     match n with
     | O => inl IFuel
     | S n' =>
-        match revert hash root_eqb smt_update a cur root None with
+        match revert hash enc root_eqb tree_update tree_root a cur root None with
         | ROk a' root' => init_loop a' (cur - 1) root' last n'
         | r => inl (IRevertErr a r)
         end
@@ -37,9 +41,10 @@ Section Rec.
     end.
 End Rec.
 
-Arguments IOk {R} _.
-Arguments IBehind {R}.
-Arguments IRevertErr {R} _ _.
-Arguments IConflict {R} _.
-Arguments IFuel {R}.
-Arguments init _ {R} _ _ _ _ _ _.
+Arguments IOk {TR R} _.
+Arguments IBehind {TR R}.
+Arguments IRevertErr {TR R} _ _.
+Arguments IConflict {TR R} _.
+Arguments IFuel {TR R}.
+Arguments init_loop _ {K} _ {TR R} _ _ _ _ _ _ _ _.
+Arguments init _ {K} _ {TR R} _ _ _ _ _ _ _.
